@@ -140,6 +140,8 @@ def explore_E(chunk):
             variant("spelling", L.render(t2)[0])
         for t2 in L.paren_variants(tokens):
             variant("parentheses", L.render(t2)[0])
+        for t2 in L.signed_paren_variants(tokens):
+            variant("parentheses-signed", L.render(t2)[0])
         for t2 in L.semicolon_variants(tokens):
             variant("semicolon", L.render(t2)[0])
         # combined: every uniform layout on every re-spelled token list
